@@ -10,6 +10,7 @@ import (
 	"hash/fnv"
 	"math/rand"
 	"os"
+	"os/exec"
 	"path/filepath"
 	"runtime"
 	"sort"
@@ -135,11 +136,16 @@ func (r *Run) loadFindings() {
 	}
 }
 
-func (r *Run) Tier() string     { return r.tier }
-func (r *Run) Quick() bool      { return r.tier == "quick" }
-func (r *Run) Thorough() bool   { return r.tier == "thorough" }
-func (r *Run) Seed() int64      { return r.seed }
-func (r *Run) Pick(q, t int) int { if r.Quick() { return q }; return t }
+func (r *Run) Tier() string   { return r.tier }
+func (r *Run) Quick() bool    { return r.tier == "quick" }
+func (r *Run) Thorough() bool { return r.tier == "thorough" }
+func (r *Run) Seed() int64    { return r.seed }
+func (r *Run) Pick(q, t int) int {
+	if r.Quick() {
+		return q
+	}
+	return t
+}
 
 // Rand returns a PRNG determined by the run seed and a sub-stream label.
 func (r *Run) Rand(label string) *rand.Rand {
@@ -194,10 +200,14 @@ func (r *Run) Note(k string, v any) {
 	r.mu.Unlock()
 }
 
-func (r *Run) Rule(s string)        { r.mu.Lock(); r.rule = s; r.mu.Unlock() }
-func (r *Run) Exhaustive(b bool)    { r.mu.Lock(); r.exhaustive = &b; r.mu.Unlock() }
-func (r *Run) Assume(s ...string)   { r.mu.Lock(); r.assumptions = append(r.assumptions, s...); r.mu.Unlock() }
-func (r *Run) Violations() int      { r.mu.Lock(); defer r.mu.Unlock(); return r.violations }
+func (r *Run) Rule(s string)     { r.mu.Lock(); r.rule = s; r.mu.Unlock() }
+func (r *Run) Exhaustive(b bool) { r.mu.Lock(); r.exhaustive = &b; r.mu.Unlock() }
+func (r *Run) Assume(s ...string) {
+	r.mu.Lock()
+	r.assumptions = append(r.assumptions, s...)
+	r.mu.Unlock()
+}
+func (r *Run) Violations() int         { r.mu.Lock(); defer r.mu.Unlock(); return r.violations }
 func (r *Run) Logf(f string, a ...any) { fmt.Printf("[%s] "+f+"\n", append([]any{r.ID}, a...)...) }
 
 // Inconclusive records a case that could not be decided (watchdog, canary, hook not reached).
@@ -470,3 +480,65 @@ func DumpGoroutines(tag string) string {
 	os.WriteFile(p, buf[:n], 0o644)
 	return p
 }
+
+func Getenv(k string) string { return os.Getenv(k) }
+
+// RunSub runs a sibling build of the same check (e.g. the -race build) as a sub-pass
+// and returns its summary. Race-detector reports are collected in .work and counted.
+func RunSub(bin, sub string, r *Run, timeout time.Duration) (*Summary, error) {
+	work := filepath.Join(Root, ".work")
+	os.MkdirAll(work, 0o755)
+	out := filepath.Join(work, fmt.Sprintf("sub-%s-%s-%d.json", r.ID, sub, os.Getpid()))
+	raceLog := filepath.Join(work, fmt.Sprintf("race-%s-%d", r.ID, os.Getpid()))
+	os.Remove(out)
+	cmd := osexec(bin, "-tier", r.tier, "-seed", strconv.FormatInt(r.seed, 10), "-sub", sub, "-subout", out)
+	cmd.Env = append(os.Environ(), "GORACE=halt_on_error=0 log_path="+raceLog)
+	cmd.Stdout = os.Stdout
+	cmd.Stderr = os.Stdout
+	if err := cmd.Start(); err != nil {
+		return nil, err
+	}
+	done := make(chan error, 1)
+	go func() { done <- cmd.Wait() }()
+	select {
+	case <-done:
+	case <-time.After(timeout):
+		cmd.Process.Kill()
+		<-done
+		return nil, fmt.Errorf("sub-pass %s timed out after %v", sub, timeout)
+	}
+	b, err := os.ReadFile(out)
+	if err != nil {
+		return nil, fmt.Errorf("sub-pass %s left no summary: %w", sub, err)
+	}
+	var s Summary
+	if err := json.Unmarshal(b, &s); err != nil {
+		return nil, err
+	}
+	os.Remove(out)
+	// count race reports
+	matches, _ := filepath.Glob(raceLog + ".*")
+	races, repoRaces := 0, 0
+	for _, m := range matches {
+		data, _ := os.ReadFile(m)
+		for _, blk := range strings.Split(string(data), "==================") {
+			if strings.Contains(blk, "WARNING: DATA RACE") {
+				races++
+				if strings.Contains(blk, "github.com/karagenc/socket.io-go") {
+					repoRaces++
+				}
+			}
+		}
+	}
+	if s.Counters == nil {
+		s.Counters = map[string]int64{}
+	}
+	s.Counters["race_reports"] = int64(races)
+	s.Counters["race_reports_with_repo_frames"] = int64(repoRaces)
+	if repoRaces > 0 {
+		fmt.Printf("[%s] NOTE: %d race report(s) with repository frames in the race sub-pass (logs %s.*); races are decided by C16\n", r.ID, repoRaces, raceLog)
+	}
+	return &s, nil
+}
+
+func osexec(bin string, args ...string) *exec.Cmd { return exec.Command(bin, args...) }
